@@ -210,6 +210,184 @@ func propC07BatchReplies(c *Ctx) {
 			}
 			okDup, dDup = true, "a block answered twice (a duplicated response) is an error"
 		})
+		// the same record kept as a slice of flags indexed by the block's position in the requested range
+		// (`answered[n-start]`): the position is the number shifted by something the loop does not change
+		if !okDup {
+			writtenOutsideLoops := func(al *ssa.Alloc) bool {
+				for _, ref := range *al.Referrers() {
+					switch x := ref.(type) {
+					case *ssa.Store:
+						if x.Addr != ssa.Value(al) || loopHeaderOf(x) != nil {
+							return false
+						}
+					case *ssa.UnOp, *ssa.DebugRef:
+					case *ssa.FieldAddr:
+						for _, r2 := range *x.Referrers() {
+							switch y := r2.(type) {
+							case *ssa.Store:
+								if y.Addr != ssa.Value(x) || loopHeaderOf(y) != nil {
+									return false
+								}
+							case *ssa.UnOp, *ssa.DebugRef:
+							default:
+								return false
+							}
+						}
+					default:
+						return false
+					}
+				}
+				return true
+			}
+			// judge: what a term of the position stands for – the block number ("key"), something the loop
+			// leaves alone ("inv": a parameter, or a member of a local written before the loop), or neither
+			judge := func(v ssa.Value, call *ssa.Call) string {
+				root, chain := fieldChain(stripNum(v))
+				root = stripConv(root)
+				if al, isAl := root.(*ssa.Alloc); isAl && al.Parent() != fn {
+					cv := cellValue(al) // a by-value receiver spilled to a local of the helper
+					if cv == nil {
+						return "bad"
+					}
+					root = stripConv(cv)
+				}
+				if p, isP := root.(*ssa.Parameter); isP && p.Parent() != fn {
+					if call == nil || p.Parent() != regionCallee(call) {
+						return "bad"
+					}
+					for i, q := range p.Parent().Params {
+						if q == p && i < len(call.Call.Args) {
+							root = stripConv(call.Call.Args[i])
+						}
+					}
+				}
+				if len(chain) == 0 && sameAsKey(root) {
+					return "key"
+				}
+				if u, isU := root.(*ssa.UnOp); isU && u.Op == token.MUL {
+					root = u.X
+				}
+				switch x := root.(type) {
+				case *ssa.Parameter:
+					if x.Parent() == fn {
+						return "inv"
+					}
+				case *ssa.Const:
+					return "inv"
+				case *ssa.Alloc:
+					if x.Parent() == fn && writtenOutsideLoops(x) {
+						return "inv"
+					}
+				}
+				return "bad"
+			}
+			positionOfKey := func(idx ssa.Value) bool {
+				var call *ssa.Call
+				if cl, isCall := stripNum(idx).(*ssa.Call); isCall { // a position computed by a helper: what the helper returns
+					cal := regionCallee(cl)
+					if cal == nil {
+						return false
+					}
+					rets := returnsOf(cal)
+					if len(rets) != 1 || len(returnValues(rets[0])) != 1 {
+						return false
+					}
+					call, idx = cl, returnValues(rets[0])[0]
+				}
+				aff := &affEnv{}
+				l := aff.Of(idx)
+				nKey := 0
+				for a, k := range l.t {
+					if k == 0 {
+						continue
+					}
+					v := aff.vals[a]
+					if v == nil {
+						return false
+					}
+					switch judge(v, call) {
+					case "key":
+						if k != 1 && k != -1 {
+							return false
+						}
+						nKey++
+					case "inv":
+					default:
+						return false
+					}
+				}
+				return nKey == 1
+			}
+			flagsOf := func(v ssa.Value) *ssa.MakeSlice {
+				s, idx, isE := elemOf(v)
+				if !isE || !positionOfKey(idx) {
+					return nil
+				}
+				mk, isMk := stripConv(reg.Resolve(stripConv(s))).(*ssa.MakeSlice)
+				if !isMk {
+					if u, isU := stripConv(s).(*ssa.UnOp); isU && u.Op == token.MUL {
+						if al, isAl := u.X.(*ssa.Alloc); isAl {
+							if cv := cellValue(al); cv != nil {
+								mk, isMk = stripConv(cv).(*ssa.MakeSlice)
+							}
+						}
+					}
+				}
+				if !isMk {
+					return nil
+				}
+				if b, isB := mk.Type().Underlying().(*types.Slice).Elem().Underlying().(*types.Basic); !isB || b.Kind() != types.Bool {
+					return nil
+				}
+				return mk
+			}
+			reg.AllInstrs(func(in ssa.Instruction) {
+				ld, ok := in.(*ssa.UnOp)
+				if !ok || ld.Op != token.MUL || okDup {
+					return
+				}
+				if _, isIA := ld.X.(*ssa.IndexAddr); !isIA {
+					return
+				}
+				mk := flagsOf(ld)
+				if mk == nil {
+					return
+				}
+				t, f := boolEdges(ld)
+				if len(t) == 0 {
+					return
+				}
+				for _, e := range t {
+					if g, _ := errorArmLeaves(ld.Parent(), e, f, nil); !g {
+						dDup = "a second response for a block is not an error"
+						return
+					}
+				}
+				stored := false
+				allInstrs(ld.Parent(), func(x ssa.Instruction) {
+					st, isSt := x.(*ssa.Store)
+					if !isSt {
+						return
+					}
+					if _, isIA := st.Addr.(*ssa.IndexAddr); !isIA || flagsOf(st.Addr) != mk {
+						return
+					}
+					if k, isK := st.Val.(*ssa.Const); !isK || k.Value == nil || k.Value.String() != "true" {
+						return
+					}
+					if ev, fd := passesEveryCompletedIteration(st); fd && ev {
+						stored = true
+					} else if guardedByEdges(ld.Parent(), st, f) {
+						stored = true
+					}
+				})
+				if !stored {
+					dDup = "an answered block is not recorded"
+					return
+				}
+				okDup, dDup = true, "a block answered twice (a duplicated response) is an error (flags by position in the range)"
+			})
+		}
 		c.Check("R7.5", "receipts/no-block-answered-twice", fn.Pos(), okDup, dDup)
 	}
 	// ---- logs: constant indexes into the decoded []any
